@@ -180,10 +180,12 @@ def run_setdim(ctx) -> RuleResult:
 
 def _coefficient_filter(path, last, coefs, mask_text):
     """True/False: coefficients filtered with the same / a different mask; None: this path does not say."""
-    if not (isinstance(coefs, ast.List) and not coefs.elts):
+    orig = kwarg(last.node.value, "coefficients")
+    accumulated = isinstance(coefs, ast.List) and isinstance(orig, ast.Name) and (
+        not coefs.elts or bool(last.muts.get(orig.id)))
+    if not accumulated:
         return mask_text in _txt(coefs)
     # accumulate form:  kept = []; for c, keep in zip(X.coefficients, mask): if keep: kept.append(c)
-    orig = kwarg(last.node.value, "coefficients")
     if not isinstance(orig, ast.Name):
         return None
     appended = set()
